@@ -191,6 +191,17 @@ func init() {
 			p := loadPkg(".")
 			return predDef("is_free_order_message", disjunctionOf(p, p.Func("", "isFreeOrderMessage")))
 		}},
+		predFact("internal/raft", "raft", "canGrantVote", "gen_canGrantVote", "bool", raftEnums),
+		predFact("internal/raft", "raft", "numVotingMembers", "gen_numVotingMembers", "N", raftEnums),
+		predFact("internal/raft", "raft", "quorum", "gen_quorum", "N", raftEnums),
+		predFact("internal/raft", "raft", "isSingleNodeQuorum", "gen_isSingleNodeQuorum", "bool", raftEnums),
+		predFact("internal/raft", "raft", "timeForElection", "gen_timeForElection", "bool", raftEnums),
+		predFact("internal/raft", "raft", "timeForHeartbeat", "gen_timeForHeartbeat", "bool", raftEnums),
+		predFact("internal/raft", "raft", "timeForCheckQuorum", "gen_timeForCheckQuorum", "bool", raftEnums),
+		predFact("internal/raft", "raft", "timeToAbortLeaderTransfer", "gen_timeToAbortLeaderTransfer", "bool", raftEnums),
+		predFact("internal/raft", "raft", "leaderTransfering", "gen_leaderTransfering", "bool", raftEnums),
+		predFact("internal/raft", "raft", "hasConfigChangeToApply", "gen_hasConfigChangeToApply", "bool", raftEnums),
+		predFact("internal/raft", "", "isPreVoteMessageWithExpectedHigherTerm", "gen_isPreVoteMessageWithExpectedHigherTerm", "bool", raftEnums),
 		{Name: "handler table", Gen: func() string {
 			p := loadPkg("internal/raft")
 			cells := handlerTable(p)
@@ -233,4 +244,16 @@ func joinInts(v []int64) string {
 		s = append(s, fmt.Sprint(x))
 	}
 	return strings.Join(s, "; ")
+}
+
+func raftEnums() map[string]string {
+	out := map[string]string{}
+	p := loadPkg("raftpb")
+	for typ, pre := range map[string]string{"MessageType": "mt_", "EntryType": "et_", "ConfigChangeType": "cc_"} {
+		names, _ := p.typedConsts(typ)
+		for _, n := range names {
+			out[n] = pre + n
+		}
+	}
+	return out
 }
